@@ -199,6 +199,14 @@ func (r *Report) Finish(verifDir string) int {
 	_ = os.MkdirAll(outDir, 0o755)
 	replay := filepath.Join(outDir, r.Property+".violations.json")
 	_ = os.Remove(replay)
+	{
+		// full obligation listing (diagnostic; evidence keeps a sample)
+		var sb strings.Builder
+		for _, o := range r.Obls {
+			fmt.Fprintf(&sb, "%s\t%s\t%s\t%s\n", o.Verdict, o.Key, o.Pos, o.Msg)
+		}
+		_ = os.WriteFile(filepath.Join(outDir, r.Property+".obligations.tsv"), []byte(sb.String()), 0o644)
+	}
 	for _, o := range viol {
 		fmt.Printf("%s: [%s] %s: %s\n", o.Pos, o.Rule, o.Key, o.Msg)
 		if len(o.Path) > 0 {
